@@ -466,3 +466,29 @@ package sshfx
 //@   results err
 //@   requires bufOK(buf)
 //@   ensures bufOK(buf)
+
+// The `ls -l` mode string (POSIX ls, "File Mode Written": one file type character, then for user, group, other
+// r/-, w/-, and an execute position that carries s/S (set-uid, set-gid) or t/T (sticky) when the special bit is set,
+// lower case exactly when the execute bit is set too).
+//@ func (FileMode).String
+//@   property C17
+//@   content
+//@   loop 1 invariant 0 <= rangepos && rangepos <= 9
+//@   loop 1 invariant buf[0] == byte(ite(m&0xF000 == 0x8000, '-', ite(m&0xF000 == 0x4000, 'd', ite(m&0xF000 == 0xA000, 'l', ite(m&0xF000 == 0x6000, 'b', ite(m&0xF000 == 0x2000, 'c', ite(m&0xF000 == 0x1000, 'p', ite(m&0xF000 == 0xC000, 's', '?'))))))))
+//@   loop 1 invariant rangepos > 0 ==> buf[1] == byte(ite(m&0o400 != 0, 'r', '-'))
+//@   loop 1 invariant rangepos > 1 ==> buf[2] == byte(ite(m&0o200 != 0, 'w', '-'))
+//@   loop 1 invariant rangepos > 2 ==> buf[3] == byte(ite(m&0o100 != 0, 'x', '-'))
+//@   loop 1 invariant rangepos > 3 ==> buf[4] == byte(ite(m&0o040 != 0, 'r', '-'))
+//@   loop 1 invariant rangepos > 4 ==> buf[5] == byte(ite(m&0o020 != 0, 'w', '-'))
+//@   loop 1 invariant rangepos > 5 ==> buf[6] == byte(ite(m&0o010 != 0, 'x', '-'))
+//@   loop 1 invariant rangepos > 6 ==> buf[7] == byte(ite(m&0o004 != 0, 'r', '-'))
+//@   loop 1 invariant rangepos > 7 ==> buf[8] == byte(ite(m&0o002 != 0, 'w', '-'))
+//@   loop 1 invariant rangepos > 8 ==> buf[9] == byte(ite(m&0o001 != 0, 'x', '-'))
+//@   ensures len(result) == 10
+//@   ensures result[0] == byte(ite(m&0xF000 == 0x8000, '-', ite(m&0xF000 == 0x4000, 'd', ite(m&0xF000 == 0xA000, 'l', ite(m&0xF000 == 0x6000, 'b', ite(m&0xF000 == 0x2000, 'c', ite(m&0xF000 == 0x1000, 'p', ite(m&0xF000 == 0xC000, 's', '?'))))))))
+//@   ensures result[1] == byte(ite(m&0o400 != 0, 'r', '-')) && result[2] == byte(ite(m&0o200 != 0, 'w', '-'))
+//@   ensures result[4] == byte(ite(m&0o040 != 0, 'r', '-')) && result[5] == byte(ite(m&0o020 != 0, 'w', '-'))
+//@   ensures result[7] == byte(ite(m&0o004 != 0, 'r', '-')) && result[8] == byte(ite(m&0o002 != 0, 'w', '-'))
+//@   ensures result[3] == byte(ite(m&0o4000 != 0, ite(m&0o100 != 0, 's', 'S'), ite(m&0o100 != 0, 'x', '-')))
+//@   ensures result[6] == byte(ite(m&0o2000 != 0, ite(m&0o010 != 0, 's', 'S'), ite(m&0o010 != 0, 'x', '-')))
+//@   ensures result[9] == byte(ite(m&0o1000 != 0, ite(m&0o001 != 0, 't', 'T'), ite(m&0o001 != 0, 'x', '-')))
